@@ -168,7 +168,19 @@ def leaves():
             out.append(packages.PackageRestriction("package", values.StrGlobMatch("x", negate=vneg), negate=neg))
         out.append(packages.PackageRestriction("fullver", values.StrExactMatch("1"), negate=neg))
     out += [atom("a/x"), atom("=b/x-1"), atom("!a/y")]
+    # restrictions over several attributes at once (their value restriction sees the list of attribute values)
+    for neg in (False, True):
+        out.append(packages.PackageRestrictionMulti(("category", "package"), values.FunctionRestriction(_is_a_x), negate=neg))
+        out.append(packages.PackageRestrictionMulti(("package", "fullver"), values.FunctionRestriction(_is_x_1), negate=neg))
     return out
+
+
+def _is_a_x(v):
+    return list(v) == ["a", "x"]
+
+
+def _is_x_1(v):
+    return list(v) == ["x", "1"]
 
 
 def _query(repo, restr, **kw):
@@ -235,6 +247,14 @@ def enum_queries(seed):
         for neg in (False, True):
             for a, b in itertools.product(L, repeat=2):
                 cases += _check(repos, cls(a, b, negate=neg), fails, "pair")
+    # any-of groups whose alternatives pin different things: a category only, a package only, both, neither
+    cats_ = [x for x in L if getattr(x, "attr", None) == "category"][:6]
+    pkgs_ = [x for x in L if getattr(x, "attr", None) == "package"][:6]
+    for c1, p1, c2, p2 in itertools.product(cats_[::2], pkgs_[::2], cats_[1::2], pkgs_[1::2]):
+        cases += _check(repos, packages.OrRestriction(c1, p1, packages.AndRestriction(c2, p2)), fails, "mixed")
+        cases += _check(repos, packages.OrRestriction(packages.AndRestriction(c2, p2), p1, c1), fails, "mixed")
+        cases += _check(repos, packages.OrRestriction(c1, packages.AndRestriction(c2, p2)), fails, "mixed")
+        cases += _check(repos, packages.OrRestriction(p1, packages.AndRestriction(c2, p2), L[-1]), fails, "mixed")
     rnd = random.Random(seed)
 
     def mk(d):
@@ -267,7 +287,7 @@ def enum_queries(seed):
         if got != want and len(fails) < 4:
             fails.append({"model": {"restriction": str(restr), "query": "itermatch(versioned=False)"}, "detail": f"itermatch({restr}, versioned=False) yields {got}, expected {want}"})
     return {"name": "C08.queries.bounded_enumeration",
-            "bound": f"every leaf, every all-of / any-of pair (negated or not) over {len(L)} leaves and seeded random trees of depth <= {3 if thorough else 2}, each queried plainly, with a sorter, "
+            "bound": f"every leaf, every all-of / any-of pair (negated or not) over {len(L)} leaves (single- and multi-attribute), any-of groups mixing category-only / package-only / category-and-package alternatives, and seeded random trees of depth <= {3 if thorough else 2}, each queried plainly, with a sorter, "
                      "through a 2-repository multiplex and a filtered tree, plus unversioned queries for category/package leaves, on fixed small repositories, against brute force",
             "cases": cases, "failures": fails}
 
